@@ -5,7 +5,9 @@ use std::process::ExitCode;
 use std::ptr::NonNull;
 
 use naijascript::arena::Arena;
-use naijascript::arena::verif_pool::{VerifPool, VerifPoolSet, verif_size_class};
+use naijascript::arena::verif_pool::{
+    VERIF_SLOT_COUNTS, VERIF_SLOT_SIZES, VerifPool, VerifPoolSet, verif_size_class,
+};
 
 struct Buf {
     addr: usize, // absolute
@@ -41,6 +43,7 @@ pub fn run(input: &str, output: &str) -> ExitCode {
     let mut out = String::new();
     // The arena must outlive the pools; leak one arena per history (small).
     let mut single: Option<(VerifPool, usize, u32)> = None; // pool, arena base, slot size
+    let mut single_cnt: u32 = 0;
     let mut set: Option<(VerifPoolSet<'static>, &'static Arena, usize)> = None;
     let mut live: Vec<Buf> = Vec::new();
     let mut tag: u8 = 1;
@@ -57,6 +60,7 @@ pub fn run(input: &str, output: &str) -> ExitCode {
                 let base = arena.verif_base() as usize;
                 let _ = writeln!(out, "P {} base={}", t[1], pool.base() as usize - base);
                 single = Some((pool, base, n(2) as u32));
+                single_cnt = n(3) as u32;
                 set = None;
                 live.clear();
                 continue;
@@ -105,7 +109,13 @@ pub fn run(input: &str, output: &str) -> ExitCode {
                 }
                 "c" => {
                     let addr = base.wrapping_add(n(1) as usize);
-                    let _ = write!(out, "contains {}", pool.contains(addr as *const u8));
+                    let got = pool.contains(addr as *const u8);
+                    let _ = write!(out, "contains {}", got);
+                    let pb = pool.base() as usize;
+                    let inside = addr >= pb && addr < pb + (*ssz as usize) * (single_cnt as usize);
+                    if got != inside {
+                        out.push_str(" CONTAINS-WRONG");
+                    }
                 }
                 other => panic!("unknown op {other}"),
             }
@@ -148,7 +158,16 @@ pub fn run(input: &str, output: &str) -> ExitCode {
                 }
                 "c" => {
                     let addr = base.wrapping_add(n(1) as usize);
-                    let _ = write!(out, "contains {}", ps.contains(addr as *const u8));
+                    let got = ps.contains(addr as *const u8);
+                    let _ = write!(out, "contains {}", got);
+                    let inside = (0..20).any(|c| {
+                        let pb = ps.class_base(c) as usize;
+                        let total = VERIF_SLOT_SIZES[c] as usize * VERIF_SLOT_COUNTS[c] as usize;
+                        addr >= pb && addr < pb + total
+                    });
+                    if got != inside {
+                        out.push_str(" CONTAINS-WRONG");
+                    }
                 }
                 "k" => {
                     // size_class query
